@@ -4,5 +4,17 @@ set -e
 export CARGO_NET_OFFLINE=true
 cd /verif/harness
 cargo build --offline 2>&1 | tail -3
-cargo build --offline --manifest-path /repo/Cargo.toml --target-dir /verif/target/pm 2>&1 | tail -2
+# the shipping proc macro is built with the guard OFF: not from inside harness/, whose .cargo/config.toml turns it on
+(cd /verif && cargo build --offline --manifest-path /repo/Cargo.toml --target-dir /verif/target/pm 2>&1 | tail -2)
 test -x /verif/target/harness/debug/vcheck
+# C18 uses one cargo target directory per worker; build one of each kind and clone it so that the
+# first quick run does not compile the dependencies sixteen times over
+if [ ! -d /verif/target/feat-b-0 ]; then
+  (cd /verif && cargo check --offline --manifest-path /repo/Cargo.toml --no-default-features --features Debug --target-dir /verif/target/feat-b-0 2>&1 | tail -1)
+  for k in $(seq 1 15); do cp -a /verif/target/feat-b-0 /verif/target/feat-b-$k; done
+fi
+if [ ! -d /verif/target/feat-d-0 ]; then
+  cargo build --offline --quiet -p featdrv --no-default-features --features Debug --target-dir /verif/target/feat-d-0 2>&1 | tail -1
+  for k in $(seq 1 15); do cp -a /verif/target/feat-d-0 /verif/target/feat-d-$k; done
+fi
+echo "setup done"
